@@ -139,8 +139,8 @@ def selftest() -> int:
 
 
 def replay(case) -> int:
-    print("replay C20:", case.get("detail"))
-    return 1
+    from .common import replay_state
+    return replay_state(judge_state, case, "C20")
 
 
 def run(tier: str, seed: int) -> int:
